@@ -221,6 +221,13 @@ func SenderConfig(prop string, r *Rand, tier string) map[string]int64 {
 	if prop == "C09" || r.Bool(30) {
 		c["real_proofs"] = 1
 	}
+	// early claims: an L2 whose oracle does not wait for L1 finality lets users claim against an L1 info leaf of a
+	// block that is not finalized yet (the node must hold such a claim back until the leaf is finalized, and must
+	// name the leaf of the surviving fork if an L1 reorg moves it). Drawn last: other knobs keep their values.
+	c["early_claims"] = 0
+	if c["w_l1reorg"] > 0 && r.Bool(50) {
+		c["early_claims"] = 1
+	}
 	return c
 }
 
@@ -238,6 +245,9 @@ type senderWorld struct {
 	// l1staleFrom: first block of the L1 info store that belongs to a dropped L1 fork (0: none)
 	l1staleFrom uint64
 	l1staleHold int
+	// earlyClaimed: global exit roots claimed on L2 while their L1 info leaf was not finalized; an L1 reorg that
+	// drops such a leaf always includes the update again (a claim against a root that never exists cannot settle)
+	earlyClaimed map[common.Hash]bool
 	l2m  *BridgeModel
 	l2s  *BridgeStore
 	l2r  *l2Recorder
@@ -310,10 +320,12 @@ func (s *senderWorld) genL2Block(seed uint64) MBlock {
 	}
 	dc := s.l2m.DepositCount()
 	ts := 1700000000 + num*2
-	var finLeaves []L1Leaf
+	var finLeaves, earlyLeaves []L1Leaf
 	for _, l := range s.l1g.Model.Leaves {
 		if l.Block <= s.l1.Finalized {
 			finLeaves = append(finLeaves, l)
+		} else if s.cfg["early_claims"] == 1 {
+			earlyLeaves = append(earlyLeaves, l)
 		}
 	}
 	giParts := []uint32{0, 1, 1 << 8, 1 << 16, 1 << 24, 0xFFFFFFFF, 255, 256, 65535, 65536}
@@ -336,6 +348,14 @@ func (s *senderWorld) genL2Block(seed uint64) MBlock {
 		if r.Bool(40) {
 			// boundary bias: the newest finalized leaf is the one a lagging or stale view of the L1 info tree misses
 			leaf = finLeaves[len(finLeaves)-1]
+		}
+		if len(earlyLeaves) > 0 && r.Bool(30) {
+			leaf = earlyLeaves[r.Intn(len(earlyLeaves))]
+			if s.earlyClaimed == nil {
+				s.earlyClaimed = map[common.Hash]bool{}
+			}
+			s.earlyClaimed[leaf.GER] = true
+			s.rec.Stats.Inc("claims_against_an_l1_info_leaf_that_is_not_finalized_yet")
 		}
 		if s.cw != nil {
 			if cl := s.cw.GenClaim(r, leaf, num, pos, ts); cl != nil {
@@ -1147,8 +1167,11 @@ func runSender(prop string, tr *Trace, sc *Script, rec *Recorder, scratch string
 			// most of the dropped L1 info updates are included again on the new fork (same exit roots, other block)
 			var carry [][2]common.Hash
 			for _, l := range s.l1g.Model.Leaves {
-				if l.Block > keep && r.Bool(70) {
+				if l.Block > keep && (r.Bool(70) || s.earlyClaimed[l.GER]) {
 					carry = append(carry, [2]common.Hash{l.MER, l.RER})
+					if s.earlyClaimed[l.GER] {
+						rec.Stats.Inc("l1_reorgs_that_moved_a_claimed_not_yet_finalized_l1_info_leaf")
+					}
 				}
 			}
 			s.l1.Rewind(keep)
